@@ -132,6 +132,8 @@ def random_prms(rng, rows):
         p['LAYERING_PRMS'] = {'min_okta_to_split': rng.choice([0, 1, 2, 5])}
     if rng.random() < 0.1:
         p['SLICING_PRMS'] = {'distance_threshold': rng.choice([0.05, 0.1, 0.2, 0.4])}
+    if rng.random() < 0.1:
+        p['LOWESS'] = {'frac': rng.choice([0.2, 0.35, 0.6, 1.0]), 'it': rng.choice([0, 1, 3])}
     if rng.random() < 0.12:
         # the minimum range of the height scaling, 0 (= no minimum range, the scaler's own default) included
         p.setdefault('SLICING_PRMS', {})['height_scale_kwargs'] = {'min_range': rng.choice([0, 0, 1, 50, 1000, 20000])}
@@ -209,9 +211,17 @@ def _same_tree(a, b):
         return False
 
 
+class Replace(dict):
+    """A dictionary value that replaces the one in place instead of being merged into it (switching the height scaling
+    of the slicing to another mode means new keyword arguments, not additional ones) - only meaningful on the global
+    route, where the user edits dynamic.AMPYCLOUD_PRMS directly."""
+
+
 def _nested_update(ref, new):
     for k, v in new.items():
-        if isinstance(v, dict) and isinstance(ref.get(k), dict):
+        if isinstance(v, Replace):
+            ref[k] = dict(v)
+        elif isinstance(v, dict) and isinstance(ref.get(k), dict):
             _nested_update(ref[k], v)
         else:
             ref[k] = v
